@@ -22,8 +22,15 @@
        bound entity in place of each slot (subst_slots); unbound slots give ErrUnlinkedSlot on both sides.
        `_partial`: the hypothesis body_closed (the when/unless body evaluates independently of the slot
        environment — the parser rejects slots there) is semantic, not derived from a syntactic check.
-   NOT proved: refinement to the abstract map as a separate statement, merge properties. *)
-From Cedar Require Import PolicySet PolicySetProofs PolicySetWF PolicySetSubst.
+     c08_refines : refinement of the six core operations to the abstract finite map
+       abs_of : id -> static body | template | link(template id, values): each successful operation is the
+       abstract put/delete, and (under WF) it succeeds exactly when the abstract precondition holds
+       (add*: id free; link: entry is a template, exact binding, id free; unlink: entry is a link;
+       remove_static: entry is static; remove_template: entry is a template no link names);
+       c08_policies_exact : the policies authorization iterates over (`ps_links`) are exactly the static
+       bodies and links of the abstract map.
+   NOT proved: merge (invariant preservation, contents = a U rho(b), rho injective/fresh). *)
+From Cedar Require Import PolicySet PolicySetProofs PolicySetWF PolicySetSubst PolicySetRefine.
 
 Theorem c08_fail_noop_api : forall h o h' e r, api_step h o = (h', (OErr e, r)) -> h' = h.
 Proof. exact api_step_fail_noop. Qed.
@@ -84,6 +91,46 @@ Theorem c08_link_static_body_refused : forall s t new env,
   ps_link s (tid t) new env = OErr ENoSuchTemplate.
 Proof. exact link_static_body_refused. Qed.
 Print Assumptions c08_link_static_body_refused.
+
+Theorem c08_refines : forall s, WF s ->
+  (forall t s', ps_add_static s t = OOk s' -> forall i, abs_of s' i = aput (abs_of s) (tid t) (AStatic t) i) /\
+  (forall t, (exists s', ps_add_static s t = OOk s') <-> abs_of s (tid t) = None) /\
+  (forall t s', ps_add_template s t = OOk s' -> forall i, abs_of s' i = aput (abs_of s) (tid t) (ATemplate t) i) /\
+  (forall t, (exists s', ps_add_template s t = OOk s') <-> abs_of s (tid t) = None) /\
+  (forall tmpl new env s', ps_link s tmpl new env = OOk s' ->
+      forall i, abs_of s' i = aput (abs_of s) new (ALink tmpl env) i) /\
+  (forall tmpl new env, (exists s', ps_link s tmpl new env = OOk s') <->
+      (exists t, abs_of s tmpl = Some (ATemplate t) /\ check_binding t env = true /\ abs_of s new = None)) /\
+  (forall i s' p, ps_unlink s i = OOk (s', p) -> forall j, abs_of s' j = adel (abs_of s) i j) /\
+  (forall i, (exists r, ps_unlink s i = OOk r) <-> (exists t e, abs_of s i = Some (ALink t e))) /\
+  (forall i s' p, ps_remove_static s i = OOk (s', p) -> forall j, abs_of s' j = adel (abs_of s) i j) /\
+  (forall i, (exists r, ps_remove_static s i = OOk r) <-> (exists t, abs_of s i = Some (AStatic t))) /\
+  (forall i s', ps_remove_template s i = OOk s' -> forall j, abs_of s' j = adel (abs_of s) i j) /\
+  (forall i, (exists s', ps_remove_template s i = OOk s') <->
+      ((exists t, abs_of s i = Some (ATemplate t)) /\ forall j e, abs_of s j <> Some (ALink i e))).
+Proof.
+  intros s W.
+  split; [intros; eapply add_static_refines; eauto|].
+  split; [intros; apply add_static_ok_iff|].
+  split; [intros; eapply add_template_refines; eauto|].
+  split; [intros; apply add_template_ok_iff|].
+  split; [intros; eapply link_refines; eauto|].
+  split; [intros; apply link_ok_iff; exact W|].
+  split; [intros; eapply unlink_refines; eauto|].
+  split; [intros; apply unlink_ok_iff; exact W|].
+  split; [intros; eapply remove_static_refines; eauto|].
+  split; [intros; apply remove_static_ok_iff; exact W|].
+  split; [intros; eapply remove_template_refines; eauto|].
+  intros; apply remove_template_ok_iff; exact W.
+Qed.
+Print Assumptions c08_refines.
+
+Theorem c08_policies_exact : forall s i,
+  (forall p, alookup i (ps_links s) = Some p ->
+     abs_of s i = Some (match plink p with None => AStatic (ptemplate p) | Some _ => ALink (tid (ptemplate p)) (penv p) end)) /\
+  (alookup i (ps_links s) = None -> abs_of s i = None \/ exists t, abs_of s i = Some (ATemplate t)).
+Proof. intros s i. split; [intros p; apply policies_exact | apply policies_only]. Qed.
+Print Assumptions c08_policies_exact.
 
 (* consequences of the invariant, in the property's words *)
 Theorem c08_no_shared_id : forall s i p t, WF s ->
